@@ -361,8 +361,9 @@ def prepare(case, wd):
 
 def child_body(job):
     case, wd = job["case"], job["wd"]
+    # the dispositions of a freshly started Python process: SIGINT -> default_int_handler, the others SIG_DFL
     for s in SIGNAMES:
-        signal.signal(getattr(signal, s), signal.SIG_DFL)
+        signal.signal(getattr(signal, s), signal.default_int_handler if s == "SIGINT" else signal.SIG_DFL)
     prepare(case, wd)
     os.chdir(wd)
     sys.stdout, sys.stderr = io.StringIO(), io.StringIO()
